@@ -415,6 +415,9 @@ class MinErrorFlow():
                 self._is_solved = True # START hack to get the corrected graph                
                 corrected_graph = self.get_corrected_graph()
                 self._is_solved = False # END hack to get the corrected graph
+                # The solution cached by the hack belongs to the first stage: forget it, so that get_solution()
+                # reports the second-stage model (and raises if that one is not solved)
+                self._solution = None
 
                 # Pick 30 random edges of G.edges()
                 edge_subset = [e for e in self.original_graph_copy.edges()]
@@ -487,8 +490,13 @@ class MinErrorFlow():
                 else float(edge_sol_dict[edge])
             )
 
-        edge_error_sol_dict = self.solver.get_values(self.edge_error_vars)
-        error = sum(edge_error_sol_dict.values())
+        # The error variables are only upper bounds of the absolute errors once they are no longer minimized
+        # (second stage of few_flow_values_epsilon), so we compute the error from the corrected values
+        error = sum(
+            abs(data[self.flow_attr] - self.edge_sol[(u, v)])
+            for u, v, data in self.G.edges(data=True)
+            if (u, v) not in self.edges_to_ignore and self.flow_attr in data
+        )
 
         corrected_graph = deepcopy(self.original_graph_copy)
         for u, v in corrected_graph.edges():
